@@ -583,10 +583,10 @@ pub fn check_state(p: &Props, ops: &[Op], info: &PlanInfo, obs: &Obs, last_only:
             out.push(v("C04", "dispatch-panicked", format!("sequential dispatch script panicked: {}", e)));
         } else if let Some(runs) = &obs.runs {
             for n in &info.nodes {
-                let exp = expected_runs(info, n.id, 3, 2);
+                let exp = expected_runs(info, n.id, 4, 3);
                 if runs[n.id] != exp {
                     let sig = if runs[n.id] < exp { "system-skipped" } else { "system-ran-too-often" };
-                    out.push(v("C04", sig, format!("system {} ran {} times after [dispatch_seq, dispatch_par, dispatch, dispatch_thread_local], expected {}: {}", n.id, runs[n.id], exp, l.short())));
+                    out.push(v("C04", sig, format!("system {} ran {} times after [dispatch_seq, dispatch_par, dispatch, dispatch_thread_local, RunNow::run_now], expected {}: {}", n.id, runs[n.id], exp, l.short())));
                 }
             }
         }
